@@ -1054,6 +1054,15 @@ func ruleLocalIndex(c *Ctx, r *Report, rule string, reach map[*ssa.Function]bool
 			default:
 				return true
 			}
+			// a local that only stands for a struct field (code := p.code): indexes of fields are not this rule's
+			// (the program's tables are E-ISA's, as when the field is written out)
+			if def, k := c.singleDef(body, v); k == 1 && def != nil {
+				if sel, isSel := stripParens(def).(*ast.SelectorExpr); isSel {
+					if fv, isVar := c.objOf(sel).(*types.Var); isVar && fv.IsField() {
+						return true
+					}
+				}
+			}
 			// a store target `x[i] = v` on a map is not an index; maps were excluded by type above
 			for _, ix := range idxs {
 				if ix == nil {
